@@ -104,9 +104,9 @@ def entries():
     L.append(g("str.value.alphabet.menu", "i: int, j: int",
                '("str", pick(("", "a", "ab", "b", "ca"), i), NOLEN, pick(("", "a", "ba", "abc"), j), Nil, Nil)',
                covers=("nodraw",)))
-    for i, pat in enumerate([r"^a+$", r"[0-9]{2}", r"b|cd"]):
+    for i, pat in enumerate([r"^a+$", r"[0-9]{2}", r"b|cd", r"a.c", r"^.{1,2}$", r"[^a-y]z"]):
         L.append(g("str.regex%d" % i, "", '("str", Nil, NOLEN, Nil, Nil, r"%s")' % pat, chars=True,
-                   covers=("allhigh",) if i != 1 else ("mixed",)))
+                   covers=(("allhigh",) if i in (0, 2, 4) else ("mixed",)) if i < 3 or i == 4 else ("nodraw",)))
     # ---- menu types
     L.append(g("uuid4", "i: int", '("uuid4", pick(UUIDS4, i, Nil))', covers=("nodraw",)))
     L.append(g("datetime", "i: int", '("datetime", pick(DATETIMES, i, Nil))', covers=("nodraw",)))
@@ -137,6 +137,8 @@ def entries():
     # ---- dicts / any / alias / nesting
     D1 = '("dict", [("a", False, %s), ("b", True, ("int", Nil, Nil, b)), ("c", False, ("str", Nil, (k, Nil, Nil), Nil, Nil, Nil))], rel)' % INT_A
     L.append(g("dict.mixed", "a: int, b: int, k: int, rel: bool", D1, chars=True, pre=["k <= 2"]))
+    L.append(g("dict.mixed.first", "a: int, b: int, k: int", D1.replace(", rel)", ', "first")'), chars=True, pre=["k <= 2"]))
+    L.append(g("dict.mixed.mid", "a: int, b: int, k: int", D1.replace(", rel)", ', "mid")'), chars=True, pre=["k <= 2"]))
     L.append(g("dict.untyped", "", '("dict", None)', covers=("nodraw",)))
     L.append(g("dict.empty", "rel: bool", '("dict", [], rel)', covers=("nodraw",)))
     L.append(g("any.2", "a: int, n: int", '("any", [%s, ("str", Nil, (n, Nil, Nil), Nil, Nil, Nil), ("none",)])' % INT_A,
@@ -175,3 +177,96 @@ def harnesses(tier, seed, active_kf=()):
         out.append(mk("C01." + e["name"], e["params"], body, covers=e["covers"], pre=e["pre"], timeout=e["timeout"],
                       functions=FUNCS, bounds=BOUNDS, kf=e["kf"], active_kf=active_kf))
     return out
+
+
+FP_REPLAY = '''#!/venv/bin/python
+"""Replay of an fpsym (E2) model against the real Random.random_float (plain CPython). exit 1 = reproduced."""
+import sys
+sys.path.insert(0, "/verif/engine")
+import fpsym
+MODEL = %r
+PRECISION = %d
+ok, detail = fpsym.replay_random_float(MODEL, PRECISION)
+print(detail)
+print("in range" if ok else "VIOLATES start <= result <= end (or raised)")
+sys.exit(0 if ok else 1)
+'''
+
+
+def extra_checks(tier, seed, replay_dir):
+    """Engine E2 (engine/fpsym.py): the precision grid of Random.random_float, exact IEEE-754 doubles.
+    Runs in a child process under the overlay interpreter so that z3 and the current d42 are importable."""
+    import json
+    import os
+    import subprocess
+    from engine import driver
+    precisions = list(range(1, 16)) if tier == "thorough" else [1, 2, 3, 7, 15]
+    code = (
+        "import sys, json\n"
+        "sys.path.insert(0, %r)\n"
+        "import fpsym\n"
+        "out = {}\n"
+        "for p in %r:\n"
+        "    recs = fpsym.explore_random_float(p, 11, 53, z3_timeout=%d, cvc5_timeout=%d)\n"
+        "    for r in recs:\n"
+        "        if r['model']:\n"
+        "            ok, detail = fpsym.replay_random_float(r['model'], p)\n"
+        "            r['replay_ok'], r['replay_detail'] = ok, detail\n"
+        "    out[p] = recs\n"
+        "out['lemma_bad'] = {p: fpsym.lemma_check(p) for p in %r}\n"
+        "print('@@FPSYM ' + json.dumps(out))\n"
+    ) % (os.path.join(driver.ROOT, "engine"), precisions, 120 if tier == "thorough" else 45, 600 if tier == "thorough" else 0, precisions)
+    cp = subprocess.run([driver.VENV_PY, "-c", code], capture_output=True, text=True, env=driver.child_env(), timeout=7200)
+    res = {"obligations": 0, "discharged": 0, "queries": 0, "solver_s": 0.0, "paths": 0, "replays": 0, "inconclusive": [],
+           "violations": [], "samples": [], "coverage": {}}
+    data = None
+    for line in cp.stdout.splitlines():
+        if line.startswith("@@FPSYM "):
+            data = json.loads(line[len("@@FPSYM "):])
+    if data is None:
+        res["obligations"] = 1
+        res["inconclusive"].append({"harness": "C01.fpsym", "fn": "random_float", "why": "fpsym run failed: " + cp.stderr[-400:]})
+        return res
+    lemma_bad = data.pop("lemma_bad")
+    per_p = {}
+    for p, recs in data.items():
+        p = int(p)
+        per_p[p] = [{"decisions": r["decisions"], "outcome": r["outcome"], "verdict": r["verdict"], "solver": r["solver"],
+                     "solver_s": r["solver_s"]} for r in recs]
+        for r in recs:
+            res["obligations"] += 1
+            res["queries"] += 1
+            res["solver_s"] += r["solver_s"]
+            name = "C01.fpsym.p%d.path%s" % (p, "".join("T" if d else "F" for d in r["decisions"]))
+            if r["verdict"] == "unsat":
+                res["discharged"] += 1
+                res["paths"] += 1
+            elif r["verdict"] == "sat" and r.get("model"):
+                res["replays"] += 1
+                if r.get("replay_ok") is False:
+                    os.makedirs(replay_dir, exist_ok=True)
+                    path = os.path.join(replay_dir, name + ".py")
+                    with open(path, "w") as f:
+                        f.write(FP_REPLAY % (r["model"], p))
+                    os.chmod(path, 0o755)
+                    res["violations"].append({"harness": name, "args": json.dumps(r["model"]), "replay": path,
+                                              "engine_message": r["outcome"], "observed": r.get("replay_detail", "")})
+                else:
+                    res["inconclusive"].append({"harness": name, "fn": "random_float",
+                                                "why": "model did not reproduce on the real function: %s" % r.get("replay_detail")})
+            else:
+                res["inconclusive"].append({"harness": name, "fn": "random_float", "why": "solver verdict %s on path %s (%s)"
+                                            % (r["verdict"], r["decisions"], r["outcome"])})
+        if lemma_bad.get(str(p)):
+            res["obligations"] += 1
+            res["inconclusive"].append({"harness": "C01.fpsym.p%d.lemma" % p, "fn": "round",
+                                        "why": "rounding lemma failed on concrete k: %s" % lemma_bad[str(p)][:3]})
+    res["samples"].append({"engine": "fpsym", "function": "Random.random_float", "paths_per_precision": {p: len(v) for p, v in per_p.items()}})
+    res["coverage"] = {"fpsym": {
+        "function": "d42.generation._random.Random.random_float (real function object, operator-overloading IEEE executor)",
+        "format": "Float64 FP(11,53)", "precisions": precisions,
+        "bound": "start <= end, both finite, |start|, |end| <= 2**51 // 10**precision (grid integers exact); stub: randint any integer "
+                 "in [a,b], uniform any double in [a,b]; lemma round(k/10**p, p) == k/10**p validated on 2000 concrete k per precision",
+        "property": "no exception and start <= result <= end on every path",
+        "paths": per_p}}
+    return res
